@@ -73,7 +73,11 @@ Inductive cpc :=
 | OAwaited (L : Z)                        (* WaitForPendingReadersForOOOChunksAtOrBefore returned *)
 | OTruncated (L : Z)
 | BWritten (b : block) (parents : list Z) (* compactBlocks: merged block written *)
-| BReloaded.
+| BReloaded
+(* DB.CompactStaleHead / CompactSelectedSeries (compactHeadViewLocked + Head.truncateSeries) *)
+| VWritten (bs : list block) (sids : list Z)  (* block of the selected series written for one chunk range *)
+| VReloaded (sids : list Z)                   (* reloadBlocks swapped db.blocks *)
+| VAwaited (sids : list Z) (T : Z).           (* truncateSeries: WaitForPendingReadersInTimeRange(h.MinTime(), T) returned *)
 
 Record state := mkSt {
   head_ino : list sample;
@@ -182,6 +186,10 @@ Inductive ev :=
 | EODone                                       (* c06.ooo.done *)
 (* block compaction: DB.compactBlocks *)
 | EBWritten (id : Z) (parents : list Z) (mint maxt : Z)  (* c06.blocks.block_written *)
+(* stale-series / selected-series compaction: DB.CompactStaleHead, DB.CompactSelectedSeries *)
+| EVWritten (id mint maxt : Z) (sids : list Z)  (* seen at c06.reload.swapped: a new block of the view *)
+| EVAwaited (T : Z)                             (* c06.truncateSeries.afterWait; T = Head.MaxTime() at the start *)
+| EVEvicted (ev : list Z)                       (* the call returned; ev = series gone from the head *)
 (* DB.Querier, iteration, Close *)
 | EQBegin (q mint maxt : Z)                    (* c06.q.begun (or Querier returned, no head part) *)
 | EQOpenHead (q : Z)                           (* c06.q.head_opened *)
@@ -190,6 +198,13 @@ Inductive ev :=
 | EQClose (q : Z).
 
 Definition guard (b : bool) (s : state) : option state := if b then Some s else None.
+
+Fixpoint zlist_eqb (a b : list Z) : bool :=
+  match a, b with
+  | [], [] => true
+  | x :: r, y :: r' => (x =? y) && zlist_eqb r r'
+  | _, _ => false
+  end.
 
 (* the samples EGcDone keeps, and the checks on the observed new head / OOO minimum time *)
 Definition gc_done (s : state) (hi : list sample) (om : list oochunk) (lower newmint newoomin : Z) (p : cpc)
@@ -246,6 +261,7 @@ Definition step (s : state) (e : ev) : option state :=
         | OWritten L bs => Some (set_pc (set_blocks s (db_blocks s ++ bs) (to_close s)) (OReloaded L))
         | BWritten b ps =>
             Some (set_pc (set_blocks s (filter (fun x => negb (memZ (b_id x) ps)) (db_blocks s) ++ [b]) ps) BReloaded)
+        | VWritten bs sids => Some (set_pc (set_blocks s (db_blocks s ++ bs) (to_close s)) (VReloaded sids))
         | _ => None
         end
       else None
@@ -345,6 +361,41 @@ Definition step (s : state) (e : ev) : option state :=
                  && negb (memZ id (all_ids s)) && block_wf b
                  && match to_close s with [] => true | _ => false end)
                 (set_pc s (BWritten b ps))
+      | _ => None
+      end
+  | EVWritten id mint maxt sids =>
+      (* compactHeadViewLocked: one block per chunk range with the in-order samples of the
+         selected series; all blocks are written before anything is evicted *)
+      let b := mkB id mint maxt
+                 (filter (fun x => in_block_range mint maxt x && memZ (s_sid x) sids) (head_ino s)) in
+      let ok := (mint <? maxt) && negb (memZ id (all_ids s))
+                && match to_close s with [] => true | _ => false end in
+      match pc s with
+      | Idle => guard ok (set_pc s (VWritten [b] sids))
+      | VReloaded sids' => guard (ok && zlist_eqb sids sids') (set_pc s (VWritten [b] sids))
+      | _ => None
+      end
+  | EVAwaited T =>
+      (* Head.truncateSeries: returns early when h.MinTime() > maxt, else
+         WaitForPendingReadersInTimeRange(h.MinTime(), maxt) - which treats its upper bound as
+         exclusive (maxt--): no open read overlaps [h.MinTime(), T-1] *)
+      let ok := (head_mint s <=? T)
+                && negb (existsb (fun r => let '(_, lo, hi) := r in (lo <=? T - 1) && (head_mint s <=? hi)) (iso s)) in
+      match pc s with
+      | Idle => guard ok (set_pc s (VAwaited [] T))
+      | VReloaded sids => guard ok (set_pc s (VAwaited sids T))
+      | _ => None
+      end
+  | EVEvicted ev =>
+      match pc s with
+      | VAwaited sids T =>
+          (* gcSeries: the evicted series (a subset of the selected ones, all of whose samples are
+             at or below T and were written to the blocks) leave the head entirely *)
+          let gone := filter (fun x => memZ (s_sid x) ev) (head_ino s) in
+          guard (forallb (fun i => memZ i sids) ev
+                 && forallb (fun x => (s_t x <=? T) && mem_sample x (blocks_samples (db_blocks s))) gone)
+                (set_pc (set_head s (filter (fun x => negb (memZ (s_sid x) ev)) (head_ino s)) (head_mint s)) Idle)
+      | VReloaded _ => guard (match ev with [] => true | _ => false end) (set_pc s Idle)  (* early return *)
       | _ => None
       end
   | EQBegin q mint maxt =>
@@ -464,12 +515,18 @@ Definition is_maint (e : ev) : bool :=
   | _ => true
   end.
 
+(* the events of the stale-series / selected-series compaction *)
+Definition is_view (e : ev) : bool :=
+  match e with EVWritten _ _ _ _ | EVAwaited _ | EVEvicted _ => true | _ => false end.
+Definition no_view (tr : list ev) : bool := forallb (fun e => negb (is_view e)) tr.
+
 (* the step the maintenance actor takes next when it is in the middle of a run and its wait
    condition (if it has one) is met; payload-carrying steps are represented by one witness *)
 Definition next_wait (s : state) : option ev :=
   match pc s, to_close s, closing s with
   | _, _, id :: _ => Some (EBlockClosed id)
-  | HWritten _ _, _, _ | OWritten _ _, _, _ | BWritten _ _, _, _ => Some ESwapped
+  | HWritten _ _, _, _ | OWritten _ _, _, _ | BWritten _ _, _, _ | VWritten _ _, _, _ => Some ESwapped
+  | VReloaded _, _, _ => Some (EVAwaited (head_mint s))
   | FlagSet _, _, _ => Some EAwaited
   | OReloaded L, [], _ => if 0 <? L then Some EGcPub else None
   | GcPub _, _, _ => Some EOAwaited
